@@ -30,6 +30,7 @@ DISTS = {
     # degenerate triangle: peak at the lower end of the support (peak at the UPPER end is not usable in the pinned environment:
     # chaospy's Triangle(lower, midpoint=upper, upper) returns cdf(upper) = 0)
     "triangle_peak_at_a": (("Triangle", -1.0), -1.0, 3.0),
+    "triangle_peak_zero": (("Triangle", 0.0), -1.0, 3.0),            # a parameter that is exactly 0.0
     # supports far from the origin (interval lengths tiny relative to the coordinates)
     "uniform_far": (("Uniform",), 1048576.0, 1048577.0),
     "triangle_far": (("Triangle", 1048576.25), 1048576.0, 1048577.0),
